@@ -694,7 +694,7 @@ def run_params(facts, report, config):
                         continue
                     report.count("residue_parameter_fields")
                     key = "c08.param|%s|%s" % (norm_id(b["id"]), nm)
-                    bad = _non_reducing(view, prov, op, 0)
+                    bad = _non_reducing(view, prov, op, 0, facts)
                     if bad:
                         report.add(Instance(key, "c08.param", "violation",
                                             "parameter field `%s` (a residue modulo the modulus) is produced by `%s`, which does "
@@ -706,7 +706,7 @@ def run_params(facts, report, config):
                                             "parameter set or a constant of the same role" % nm, s[3], {"body": b["id"]}), config)
 
 
-def _non_reducing(view, prov, op, depth):
+def _non_reducing(view, prov, op, depth, facts=None):
     """name of a non-reducing last operation, or None"""
     if depth > 5:
         return None
@@ -725,9 +725,22 @@ def _non_reducing(view, prov, op, depth):
             continue
         if seg in PASS_THROUGH and t["args"]:
             for a in t["args"][:2] if seg in ("conditional_select", "ct_select", "select") else t["args"][:1]:
-                bad = _non_reducing(view, prov, a, depth + 1)
+                bad = _non_reducing(view, prov, a, depth + 1, facts)
                 if bad:
                     return bad
             continue
+        # an in-crate helper whose own result is reduced, constant, or handed through from its parameters (a local
+        # `pick(a, b, choice)` around conditional_select, a conversion wrapper): judge its arguments instead
+        res = t["f"].get("res")
+        cb = facts.bodies.get(res) if (facts is not None and res) else None
+        if cb is not None and depth < 4:
+            cv = mir.BodyView(cb)
+            if _non_reducing(cv, mir.Provenance(cv), ("c", (0, [])), depth + 1, facts) is None:
+                for a in t["args"]:
+                    if a[0] != "k" and mir.is_ptr_ty(view.locals[a[1][0]]) or a[0] != "k" and "Uint" in view.locals[a[1][0]]:
+                        bad = _non_reducing(view, prov, a, depth + 1, facts)
+                        if bad:
+                            return bad
+                continue
         return seg
     return None
